@@ -13,6 +13,24 @@ import (
 
 func isDynOf(v Val, key string) bool { return v.Dyn != nil && typeKey(v.Dyn) == key }
 
+// dynIs: is the dynamic type of v the type named key? Known structurally, or - in verifications that decide symbolic type
+// tests by refutation - implied by the path condition (e.g. stated by a loop invariant after the structure was havocked).
+func (x *Exec) dynIs(st *State, v Val, key string) bool {
+	if v.Dyn != nil {
+		return typeKey(v.Dyn) == key
+	}
+	if x.c == nil || !(x.prune || x.c.ElemPtrs) || v.T == "" {
+		return false
+	}
+	for _, t := range x.e.tagTypes {
+		if typeKey(t) == key {
+			_, implied := x.refuteEither(st, fmt.Sprintf("(= (i_tag %s) %d)", v.T, x.e.typeTag(t)))
+			return implied
+		}
+	}
+	return false
+}
+
 // ifaceOf boxes a structurally known value into an interface value.
 func (x *Exec) ifaceOf(st *State, v Val, it types.Type) Val {
 	pv := v
@@ -102,7 +120,7 @@ func (e *Engine) registerCodecExterns(reg regFn) {
 			ref := refOf(st, w)
 			O := st.name("O", "Bytes", st.ghostRead(g, ref))
 			var outs []callOut
-			if !isDynOf(w, "*bytes.Buffer") {
+			if !x.dynIs(st, w, "*bytes.Buffer") {
 				s2 := st.clone()
 				s2.note("WriteString fails")
 				k := s2.freshSort("k", "Int")
